@@ -76,6 +76,9 @@ func (g *rig) written() string {
 	var out []byte
 	for {
 		n, err := syscall.Read(g.rfd, g.buf)
+		if err == syscall.EINTR {
+			continue // the runtime's preemption signal
+		}
 		if n > 0 {
 			out = append(out, g.buf[:n]...)
 		}
